@@ -21,6 +21,7 @@ type Observation struct {
 	Height   uint32
 	Sections map[string]string // section -> hex digest
 	Detail   map[string]string // section -> human readable excerpt (bounded)
+	Dump     []string          // full sorted storage dump
 }
 
 func itemBytes(it stackitem.Item) []byte {
@@ -136,6 +137,7 @@ func Observe(n *Node, w *world) (*Observation, error) {
 	dump := StorageDump(n, w)
 	o.Sections["storage"] = sum([]byte(strings.Join(dump, "\n")))
 	o.Detail["storage"] = fmt.Sprintf("%d items", len(dump))
+	o.Dump = dump
 
 	var gov []string
 	cm, err := bc.GetCommittee()
